@@ -119,11 +119,25 @@ def run(ctx):
                 rp = ctx.save_replay(f'steal9_{k}.ndjson', '\n'.join(json.dumps(r) for r in rows) + '\n')
                 ctx.violation('directed work-stealing scenario failed' + ('' if stolen_in_window else ' without the F9 signature'), rp)
     ctx.extra['F9_directed_scenario_reproduced'] = hits
+    # directed scenario: stealing from a stand-by queue whose head is a migrated stealable thread and which also holds an
+    # interrupted sleeper (Tier B: hSteal carries the stolen thread's sleep-queue back index)
+    trace = f'{ctx.out}/stealsb.ndjson'
+    rc, o, e = vtlib.sh([h, '--prim', 'stealsb', '--hooks', '--execs', str(15 if t == 'quick' else 150), '--seed', str(ctx.seed), '--out', trace], timeout=600)
+    rows = [r for r in (vtlib.read_ndjson(trace) if os.path.exists(trace) else [])
+            if not r['e'].startswith('h') or r['e'] == 'hSteal']
+    if rc not in (0, 3, 4) or not rows:
+        raise vtlib.InfraError(f'h_life --prim stealsb exited {rc}: {e[-500:]}')
+    acc, rejs, n = tracecheck.validate(ctx, 'Trace_LifeA', 'Trace_LifeA.cfg', rows, tagbase='stealsb')
+    tracecheck.report(ctx, rejs, 'stealsb', name='stealsb')
+    stolen = sum(1 for r in rows if r['e'] == 'hSteal')
+    ctx.extra['stealsb'] = {'executions': n, 'accepted': acc, 'steals_observed': stolen}
+    if not stolen:
+        raise vtlib.InfraError('h_life --prim stealsb: nothing was stolen from the stand-by queue (vacuous scenario)')
     return ctx.finish()
 
 
 def replay(ctx, path):
-    rows = [r for r in vtlib.read_ndjson(path) if not r['e'].startswith('h') and r['e'] not in ('YieldInv', 'YieldResp')]
+    rows = [r for r in vtlib.read_ndjson(path) if (not r['e'].startswith('h') or (r['e'] == 'hSteal' and 'tidx' in r)) and r['e'] not in ('YieldInv', 'YieldResp')]
     acc, rejs, n = tracecheck.validate(ctx, 'Trace_LifeA', 'Trace_LifeA.cfg', rows, tagbase='replay')
     tracecheck.report(ctx, rejs, 'replay', name='replay')
     print(f'replayed {n} execution(s): {acc} accepted, {len(rejs)} rejected')
